@@ -188,9 +188,21 @@ pub fn eval(sc: &Scenario) -> CaseResult {
             }
         }
     }
+    if std::env::var("VERIF_DUMP").is_ok() {
+        if r.violation.is_some() {
+            eprintln!("SAMPLES warm={warm} A={:?}\n        B={:?}\n   statsA={:?}", a.fa_samples, b.fa_samples, a.stats_samples.iter().map(|x| (x.0, x.2.as_ref().map(|y| (y.1, y.2)).ok())).collect::<Vec<_>>());
+        }
+        eprintln!("DUMP {} | wait={:?} pause={:?} midwait={}/{} stalls={}/{} | {:?}", r.summary, sc.peers.iter().map(|p| p.use_wait).collect::<Vec<_>>(), sc.ops.first(), a.midwait_deliveries, b.midwait_deliveries, a.lockstep_stalls, b.lockstep_stalls, r.violation.as_ref().map(|v| (&v.0, &v.1[..v.1.len().min(160)])));
+    }
     r.nontrivial = r.counters.iter().any(|c| c.0 == "frames_ahead_samples_compared" && c.1 >= 10) && a.stats_samples.iter().any(|s| s.2.is_ok());
     if k != 0 {
         r.classes.push("lead!=0");
+    }
+    if sc.max_pred == 0 {
+        r.classes.push("lockstep");
+        if a.midwait_deliveries.max(b.midwait_deliveries) >= 100 {
+            r.classes.push("lockstep:frames_completed_inside_the_wait_loop>=100");
+        }
     }
     if k.abs() >= 3 {
         r.classes.push("lead>=3(wait_advice_expected)");
@@ -201,6 +213,55 @@ pub fn eval(sc: &Scenario) -> CaseResult {
     r.counters.push(("wait_recommendations", (a.wait_recs.len() + b.wait_recs.len()) as u64));
     r
 }
+
+/// lockstep sessions (window 0) with input delay d, driven through the wait helper
+/// (`advance_frame_with_wait_timeout(3 ms)`), over a link whose latency is at least that timeout (so that the
+/// simulator's parallel-wait clock is exact, see Scenario::wait_mode) and whose round trip is shorter than a tick
+/// (beyond that a lockstep endpoint, which keeps a single received frame as decode reference, gets its inputs in
+/// bursts and the estimates are noisy). The follower is paused for 0..d+3 ticks: from d on the leader sits at the
+/// largest lead lockstep allows; its game loop runs `phase` ms after the follower's, so that the follower's input
+/// for the current frame is still in flight when the leader's call begins and arrives 0..2 ms later: the first
+/// attempt stalls and the frame is completed from inside the wait loop.
+pub fn lockstep_wait_case(i: u64, seed: u64) -> Scenario {
+    let mut k = i;
+    let fps = [60u16, 30, 120][(k % 3) as usize];
+    k /= 3;
+    let delay = [3u8, 4, 6, 8][(k % 4) as usize];
+    k /= 4;
+    let fm = (1000 / fps as u32).max(1);
+    let lat = match fps { 60 => [4u16, 5, 7], 30 => [4, 8, 15], _ => [3, 3, 3] }[(k % 3) as usize];
+    k /= 3;
+    let phase = [lat as u8 - 1, lat as u8 - 2, lat as u8, 0][(k % 4) as usize];
+    k /= 4;
+    let pause = [0u32, 1, 2, delay as u32 - 1, delay as u32, delay as u32 + 3][(k % 6) as usize];
+    k /= 6;
+    let who = (k % 3) as u8; // who uses the wait helper: both / leader only / follower only
+    k /= 3;
+    let follower = (k % 2) as u8;
+    let mut sc = Scenario::basic(mix(seed ^ 0xc15b, i), 2);
+    sc.fps = fps;
+    sc.max_pred = 0;
+    sc.wait_mode = 3;
+    sc.phase_ms = (0..2u8).map(|j| if j == follower { 0 } else { phase }).collect();
+    sc.desync = 0;
+    sc.sched = 0;
+    sc.fine_poll = true;
+    for (j, p) in sc.peers.iter_mut().enumerate() {
+        p.delay = delay;
+        p.use_wait = match who { 0 => true, 1 => j as u8 != follower, _ => j as u8 == follower };
+    }
+    sc.link = LinkProfile { loss: 0, dup: 0, lat_min: lat, lat_max: lat };
+    let pause_tick = (10 * lat as u32 + 250) / fm + 20;
+    if pause > 0 {
+        sc.ops.push(Op::Pause { tick: pause_tick, node: follower, ticks: pause });
+    }
+    sc.ticks = pause_tick + 60 + 400 + (1200 / fm);
+    sc.settle = 0;
+    sc.timeout_ms = 5000;
+    sc.notify_ms = 3000;
+    sc
+}
+pub const NCASES_LW: u64 = 3 * 4 * 3 * 4 * 6 * 3 * 2;
 
 /// three peers: A and B run level, C lags k frames behind and then dies; afterwards A and B still run
 /// level with every remaining peer, so their frames_ahead() must be about zero again
@@ -276,6 +337,9 @@ pub fn run_prop(ctx: &Ctx) -> PropReport {
     rep.part(|| run_enum(ctx, "steady_lead",
         "bounded enumeration: lead k in -7..=7 x symmetric latency {0,5,10,20,35,50,75,100 ms} x fps {60,30,120} x input delay {0,2}; two peers, window 40, lock-stepped ticks after a warm-up, polls every millisecond between ticks (as the documented loop polls every iteration); oracle, sampled every 10 ticks after the warm-up: |frames_ahead_A - k| <= 1, |frames_ahead_B + k| <= 1, |sum| <= 1; every WaitRecommendation raised only with frames_ahead() >= 3 as read right after that call, skip_frames == frames_ahead(), >= 60 frames apart, and given at all when |k| >= 4; 2L <= ping <= 2L + one tick; one side's local_frames_behind == the other's remote_frames_behind (+-1, a mismatch must persist for 4 samples: the remote figure lags by the report interval plus the latency); NotEnoughData before 1 s, numbers afterwards; non-trivial = >= 10 post-warm-up samples and stats available",
         NCASES * reps, move |i| case(i % NCASES, mix(seed, i / NCASES)), eval, true));
+    rep.part(|| run_enum(ctx, "lockstep_wait_lead",
+        "bounded enumeration: lockstep sessions (window 0) driven through advance_frame_with_wait() x fps {60,120,30} x input delay {3,4,6,8} x latency = 1..2 ticks + a phase of {1, 3, 1/3, 1/2, 2/3 tick} (>= the helper's timeout, so the awaited input arrives while the helper spins) x follower paused for {0,1,2,d-1,d,d+3} ticks (from d - latency on the leader sits at the largest lead lockstep allows and completes every frame from inside the wait loop) x who uses the helper {both, leader, follower} x which peer follows; the peers of a round wait in parallel (Scenario::wait_mode); same oracle as steady_lead",
+        NCASES_LW * ctx.tier.pick(1u64, 3u64), move |i| lockstep_wait_case(i % NCASES_LW, mix(seed, i / NCASES_LW)), eval, true));
     rep.part(|| run_enum(ctx, "level_after_drop",
         "enumeration: lag 3..=7 x fps {60,30,120} x latency {0,10,30 ms}: three peers, two run level, the third runs lag frames behind for 150 frames and then dies; once it is timed out and the averaging window has passed, frames_ahead() of the two survivors must be within one frame of zero and no WaitRecommendation may be raised any more",
         45 * reps, move |i| after_drop_case(i % 45, mix(seed, i / 45)), eval_after_drop, true));
